@@ -248,7 +248,8 @@ def run_case(case, stats):
                 stats.count("probe.parse_through_alias_chain")
                 stats.log(p, an, got)
                 gz = (case["kind"] == "gzip" and exp[0] == "val" and p + exp[2] > len(image) and got[0] == "val"
-                      and _values_only(got[1]) == _values_only(exp[1]))
+                      and _values_only(got[1]) == _values_only(exp[1])) or (
+                          case["kind"] == "gzip" and exp[0] == "exc" and got[0] == "val" and p + got[2] == len(image))
                 if got != exp and not gz and not (case["kind"] == "mmap" and got == ("exc", "ValueError") and (exp[0] == "exc" or p + exp[2] > len(image))):
                     raise Violation("input_kinds", "read_by_alias_name_differs",
                                     f"cs.read({an!r}, stream) at p={p} after {hist}: got {got}, parsing the type that name resolves to gives {exp}", p=p)
@@ -270,6 +271,13 @@ def run_case(case, stats):
                 # truncated data fails on both, but with the memory map's own ValueError where BytesIO yields EOFError.
                 stats.count("probe.mmap_extent_beyond_end_exempt")
                 hist.append("parse_fail")
+                continue
+            if case["kind"] == "gzip" and exp[0] == "exc" and got[0] == "val" and p + got[2] == len(image):
+                # the same limitation seen from the other side: data that lacks (part of) the tail padding of an aligned
+                # member is rejected where the position can move beyond the end (the missing bytes are noticed), but a
+                # decompressing reader stops at the end, so the parse ends exactly there with a value
+                stats.count("probe.gzip_extent_beyond_end_exempt")
+                hist.append("parse_ok")
                 continue
             if (case["kind"] == "gzip" and exp[0] == "val" and p + exp[2] > len(image) and got[0] == "val"
                     and _values_only(got[1]) == _values_only(exp[1])):
